@@ -16,7 +16,7 @@ import vlib
 
 ALL_INVARIANTS = ["FlowRefinesSem", "NextArgIgnored", "StackDiscipline", "EndAbsorbing", "EndReportedOnlyWhenEnded",
                   "PendingNextIsNoOp", "DoneNeverWaits", "WaitingOnlyWhilePending", "CountIsJumpsOut",
-                  "VisitedIffPositive", "UnknownIsZero"]
+                  "VisitedIffPositive", "UnknownIsZero", "NextStatementFrozen"]
 ALL_PROPERTIES = ["TypeStable", "FailedStepFrozen", "WritesExplainStore", "VisitsMonotone", "OnlyJumpsChangeVisits"]
 
 BUGS = ["stopKeepsStack", "staleChoiceAfterEnd", "restoreKeepsWaiting", "visitOnEntry", "secondClauseAlsoRuns",
